@@ -720,6 +720,33 @@ fn render_fn(r: &R, fr: FnRef, contract: &str, as_name: Option<&str>) -> String 
         let blk = fr.block();
         let mut c = Coll { r, edits: vec![] };
         c.visit_block(blk);
+        if let Some(name) = r.opts.get("hoist_tail") {
+            // R13: tail expression `L op R` (L = `&X` | `X`): X is evaluated first, so `let name = X; &name op R` is the same program
+            let mut done = false;
+            if blk.stmts.len() == 1 {
+                if let Some(Stmt::Expr(Expr::Binary(b), None)) = blk.stmts.last() {
+                    let mut x: &Expr = &b.left;
+                    loop {
+                        match x {
+                            Expr::Reference(rf) => x = &rf.expr,
+                            Expr::Paren(pp) => x = &pp.expr,
+                            _ => break,
+                        }
+                    }
+                    let xr = range(x.span());
+                    let init = r.expr(x);
+                    c.edits.retain(|(rg, _)| !(rg.start >= xr.start && rg.end <= xr.end));
+                    c.edits.push((xr, name.to_string()));
+                    let st = range(b.span()).start;
+                    c.edits.push((st..st, format!("let {} = {};\n        ", name, init)));
+                    r.note("R13 first-evaluated operand of the tail expression hoisted into a let");
+                    done = true;
+                }
+            }
+            if !done {
+                r.err("hoist_tail: the body is not a single binary tail expression");
+            }
+        }
         if let Some(t) = r.opts.get("inject_before_tail") {
             if let Some(Stmt::Expr(e, None)) = blk.stmts.last() {
                 let st = range(e.span()).start;
